@@ -5,7 +5,7 @@ import z3
 
 from .. import common, templates
 from ..driver import HOLDS, INCONCLUSIVE, UNDECIDED, VIOLATION
-from ..prog import (Env, add_abstract_leaf, build, fmt, ops_of, pyeval, pytree, sem_seq, sem_tree, to_jsonable,
+from ..prog import (Env, IllFormed, add_abstract_leaf, build, fmt, ops_of, pyeval, pytree, sem_seq, sem_tree, to_jsonable,
                     from_jsonable)
 from ..relmodel import seq_eq
 from ..symx import Skip, explore, zint
@@ -49,7 +49,14 @@ def concrete_check(prog, eng, rows, bind):
         rel = build(prog, env)
     except Exception as e:  # noqa: BLE001
         return True, f"raises:{type(e).__name__}", str(e)[:200]
-    got = pytree(rel, {"X": rows})
+    from ..prog import tree_problem
+    tp = tree_problem(rel)
+    if tp:
+        return True, "tree-ill-formed", tp[:160]
+    try:
+        got = pytree(rel, {"X": rows})
+    except Exception as e:  # noqa: BLE001
+        return True, f"tree-not-evaluable:{type(e).__name__}", str(e)[:100]
     exp = pyeval(prog, {"X": rows}, bind, env.tags)
     if got != exp:
         return True, "rows-differ", {"tree": str(rel), "expected": exp, "observed": got}
@@ -74,7 +81,11 @@ def run_shape(shape, tier):
         except Exception as e:  # noqa: BLE001 - any library exception is observed behaviour
             return [("accepted", False, {"exc": f"{type(e).__name__}: {e}"[:200]})]
         info.setdefault("tree", str(rel))
-        return [("rows", seq_eq(sem_tree(rel, env), sem_seq(prog, env)), {"tree": str(rel)})]
+        try:
+            got = sem_tree(rel, env)
+        except IllFormed as e:
+            return [("returned tree is well-formed", False, {"why": str(e), "tree": str(rel)})]
+        return [("rows", seq_eq(got, sem_seq(prog, env)), {"tree": str(rel)})]
 
     res = explore(h, max_paths=3000, wall_s=300)
     out = res.as_dict()
